@@ -354,7 +354,26 @@ def _store_shape(P, R, rec):
         guards = A.guard_conditions(rec, pushes[0].bb)
         gtxt = [(fmt_sym(c), p) for (c, p) in guards]
         first_write = any(("Iterator::any" in g or "::any(" in g or "contains" in g) and p is False for (g, p) in gtxt)
-        if first_write:
+        # ... and nothing else may suppress the entry: the skip test is `entry.key == key` alone (a wider test - the key's root
+        # object already recorded, a prefix match - leaves a written key without an entry, so rollback never restores it)
+        wide = None
+        for c in rec.calls():
+            if c.bb in rec.normal_blocks() and c.name.endswith(("Iterator::any", "Iterator>::any")) and len(c.args) == 2:
+                for x in walk(rec.sym_operand(c.args[1])):
+                    if x[0] == "agg" and str(x[1]).startswith("closure:") and x[1][len("closure:"):] in P.fns:
+                        cf = P.fns[x[1][len("closure:"):]]
+                        rs = A.returned_syms(cf)
+                        cmp_calls = [cc for cc in cf.calls() if cc.bb in cf.normal_blocks() and (cc.dname or cc.name).endswith(("PartialEq::eq", "PartialEq::ne", "::starts_with", "::contains", "::ends_with"))]
+                        cc_ = A.canon_cmp(rs[0][1]) if len(rs) == 1 else None
+                        if len(rs) != 1 or len(cmp_calls) != 1 or cc_ is None or cc_[0] != "==":
+                            wide = "the closure handed to any() combines %d comparisons" % len(cmp_calls)
+                        else:
+                            sides = [fmt_sym(strip(z), maxdepth=8) for z in cc_[1:3]]
+                            if not (any(t_.endswith(".key") for t_ in sides) and any("key" in t_ and not t_.endswith(".key") for t_ in sides)):
+                                wide = "the closure handed to any() compares `%s` with `%s`" % (sides[0][:40], sides[1][:40])
+        if first_write and wide:
+            R.violate("d", "record:skip-too-wide", "the recorder skips a key although no entry for that very key is in the frame (%s): a key written after a related key gets no undo entry and survives rollback" % wide, rec, pushes[0].line)
+        elif first_write:
             R.hold("d", "first write wins: push guarded by `key not yet in frame`", fn=rec)
         else:
             R.violate("d", "record:first-write", "the recorder does not skip keys already recorded in the frame (a second write would overwrite the value to restore)", rec, pushes[0].line)
